@@ -95,7 +95,10 @@ def jobs(pid, tier):
     if pid == 'C12':
         return [seq('C12')]
     if pid == 'C16':
-        return [seq('C16')]
+        if q:
+            return [seq('C16'), vrt('C16', [r'pub1_.*'], bound=2, workers=2),
+                    vrt('C16', [r'pub2_all_(coro-block|coro-coro|block-poll)_pub-batch2-close', r'pub2_recent_coro-block_pub-pub-close'], bound=2, workers=8)]
+        return [seq('C16'), vrt('C16', [r'pub1_.*'], bound=3, workers=2), vrt('C16', [r'pub2_.*'], bound=2, workers=8)]
     if pid == 'C06':
         return [seq('C06')]
     return []
